@@ -698,10 +698,8 @@ fn read_from_file<R: Read>(reader: &mut R, num_bytes_to_read: usize) -> Rc<Objec
                 for byte in buf_slice.iter().take(bytes_read) {
                     result_bytes.push(Rc::new(Object::Byte(*byte)));
                 }
-                // Got fewer bytes than requested, so we're done
-                if bytes_read < read_len {
-                    break;
-                }
+                // A short read is not the end of input: keep reading until
+                // the requested count is reached or a read returns zero bytes
                 total_bytes_read += bytes_read;
             }
             Err(e) => {
